@@ -318,15 +318,94 @@ def relation(a, b, pairs):
     return Node([False, True], parents, tab)
 
 
+# proven equalities between nodes (y is x up to a renumbering of values), in force only while a
+# query that discovered them is being decided
+ALIAS = {}
+
+
+def P(n):
+    a = ALIAS.get(n.id)
+    return (a[0],) if a is not None else n.parents
+
+
+def T(n):
+    a = ALIAS.get(n.id)
+    return a[1] if a is not None else n.table
+
+
 def ancestors(n, acc=None):
     if acc is None:
         acc = {}
     if n.id in acc:
         return acc
     acc[n.id] = n
-    for p in n.parents:
+    for p in P(n):
         ancestors(p, acc)
     return acc
+
+
+def discover_aliases(targets, constraints=(), max_pairs=400):
+    """
+    equalities (up to a renaming of values) between nodes of the cone: two nodes over the same
+    base variables are aliases when they induce the same partition of the exact base grid.
+    Every node whose base grid is small is evaluated once; the partition is hashed.
+    """
+    import hashlib
+
+    cone = cone_of(targets)
+    support = {}
+
+    def sup(n):
+        r = support.get(n.id)
+        if r is None:
+            if n.is_var:
+                r = frozenset([n.id])
+            else:
+                r = frozenset().union(*[sup(p) for p in n.parents]) if n.parents else frozenset()
+            support[n.id] = r
+        return r
+
+    classes = {}
+    for n in sorted(cone.values(), key=lambda n: (n.depth, n.id)):
+        if n.is_var or len(n.values) < 2:
+            continue
+        sp = sup(n)
+        cut = sorted((cone[i] for i in sp if i in cone), key=lambda c: c.id)
+        if len(cut) != len(sp) or any(c.zdefs is not None for c in cut):
+            continue
+        g = grid_size(cut)
+        if g > 400_000 or g < 2:
+            continue
+        try:
+            (arr,) = evaluate([n], cut)
+        except (TooBig, KeyError):
+            continue
+        full = np.broadcast_to(arr, tuple(len(c.values) for c in cut)).reshape(-1)
+        uniq, first, inv = np.unique(full, return_index=True, return_inverse=True)
+        order = np.argsort(first)
+        rank = np.empty_like(order)
+        rank[order] = np.arange(len(order))
+        canon = rank[inv].astype(np.int32)
+        key = (tuple(c.id for c in cut), hashlib.md5(canon.tobytes()).hexdigest())
+        # value index of n for each canonical block
+        block_val = uniq[order]
+        rep = classes.get(key)
+        if rep is None:
+            classes[key] = (n, block_val)
+            continue
+        x, xblocks = rep
+        if x.id == n.id or n.id in ancestors(x):
+            continue
+        # n == perm(x): x's value index -> n's value index (unused x values map to 0)
+        perm = np.zeros(len(x.values), dtype=np.int32)
+        for bx, bn in zip(xblocks.tolist(), block_val.tolist()):
+            perm[bx] = bn
+        ALIAS[n.id] = (x, perm)
+    return len(ALIAS)
+
+
+def _old_ancestors_marker():
+    pass
 
 
 def frontier(targets, depth):
@@ -341,7 +420,7 @@ def frontier(targets, depth):
         if n.depth <= depth or n.is_var:
             cut[n.id] = n
             return
-        for p in n.parents:
+        for p in P(n):
             walk(p)
 
     for t in targets:
@@ -350,7 +429,7 @@ def frontier(targets, depth):
                 cut[t.id] = t
             else:
                 seen.add(t.id)
-                for p in t.parents:
+                for p in P(t):
                     walk(p)
     return list(cut.values())
 
@@ -383,7 +462,7 @@ def best_cut(targets, max_grid):
     tids = {t.id for t in targets}
     children = {i: set() for i in cone}
     for n in cone.values():
-        for p in n.parents:
+        for p in P(n):
             children[p.id].add(n.id)
     C = {i for i, n in cone.items() if n.is_var}
 
@@ -400,7 +479,7 @@ def best_cut(targets, max_grid):
             if n.id in C:
                 used.add(n.id)
                 continue
-            stack.extend(n.parents)
+            stack.extend(P(n))
         return used
 
     def size(C):
@@ -410,7 +489,7 @@ def best_cut(targets, max_grid):
         return s
 
     def evaluable(i, C):
-        return all(p.id in C for p in cone[i].parents)
+        return all(p.id in C for p in P(cone[i]))
 
     C = prune(C)
     cur = size(C)
@@ -476,14 +555,14 @@ def evaluate(targets, cut):
         elif n.is_var:
             raise KeyError("base variable %s is not in the cut" % n.name)
         else:
-            ps = [ev(p) for p in n.parents]
+            ps = [ev(p) for p in P(n)]
             bs = np.broadcast_shapes(*[p.shape for p in ps])
             sz = 1
             for s in bs:
                 sz *= s
             if sz > MAX_GRID:
                 raise TooBig("grid of %d points" % sz)
-            r = n.table[tuple(ps)].astype(np.int64)
+            r = T(n)[tuple(ps)].astype(np.int64)
         memo[n.id] = r
         return r
 
@@ -500,6 +579,24 @@ MAX_CUT_GRID = 8_000_000
 
 
 def find_violations(pred, constraints, limit=50, stats=None):
+    r = _find_violations(pred, constraints, limit, stats)
+    if r[0] == "toobig" and isinstance(pred, Node):
+        # look for proven equalities between intermediate nodes of both sides and retry
+        ALIAS.clear()
+        try:
+            if discover_aliases([pred] + [c for c in constraints if isinstance(c, Node)]):
+                r2 = _find_violations(pred, constraints, limit, stats)
+                if r2[0] == "valid":
+                    r2[1]["aliases"] = len(ALIAS)
+                    return r2
+                if r2[0] == "violations":
+                    return r2[:5] + (False,)
+        finally:
+            ALIAS.clear()
+    return r
+
+
+def _find_violations(pred, constraints, limit=50, stats=None):
     """
     Decide `constraints => pred` by explicit evaluation on a cut.
     Returns ("valid", info) | ("violations", cut, points, count, None, exact) | ("toobig", info)
@@ -564,11 +661,13 @@ def find_violations(pred, constraints, limit=50, stats=None):
         cut, exact = best_cut(targets, MAX_CUT_GRID)
     g = grid_size(cut)
     if g > MAX_CUT_GRID:
-        return ("toobig", {"grid": g})
+        r = _factored(pred, cons, cut, exact, limit, stats)
+        return r if r is not None else ("toobig", {"grid": g})
     try:
         arrs = evaluate(targets, cut)
     except TooBig:
-        return ("toobig", {"grid": g})
+        r = _factored(pred, cons, cut, exact, limit, stats)
+        return r if r is not None else ("toobig", {"grid": g})
     if isinstance(pred, Node):
         bad = ~truth_array(pred, arrs[0])
         rest = arrs[1:]
@@ -595,6 +694,105 @@ def find_violations(pred, constraints, limit=50, stats=None):
     for p in pts[:limit]:
         points.append({c: int(p[k]) for k, c in enumerate(cut)})
     return ("violations", cut, points, count * free, None, exact)
+
+
+def evaluate_points(targets, cut, idx):
+    """values of the targets at explicit points: idx[k] = 1-D index array of cut node k"""
+    pos = {c.id: k for k, c in enumerate(cut)}
+    memo = {}
+
+    def ev(n):
+        r = memo.get(n.id)
+        if r is not None:
+            return r
+        if n.id in pos:
+            r = idx[pos[n.id]]
+        elif n.is_var:
+            raise KeyError("base variable %s is not in the cut" % n.name)
+        else:
+            r = T(n)[tuple(ev(p) for p in P(n))].astype(np.int64)
+        memo[n.id] = r
+        return r
+
+    return [ev(t) for t in targets]
+
+
+def _factored(pred, cons, cut, exact, limit, stats):
+    """
+    explicit evaluation on a grid that is too large as a full product: the constraints are
+    first used to filter the combinations of each connected group of cut nodes; the predicate
+    is then evaluated on the product of the surviving combinations only
+    """
+    if not isinstance(pred, Node) or not cons:
+        return None
+    pos = {c.id: k for k, c in enumerate(cut)}
+    parent = list(range(len(cut)))
+
+    def find(a):
+        while parent[a] != a:
+            parent[a] = parent[parent[a]]
+            a = parent[a]
+        return a
+
+    supports = []
+    for c in cons:
+        anc = ancestors(c)
+        sup = sorted(pos[i] for i in anc if i in pos)
+        # the constraint must factor through its own support
+        supports.append(sup)
+        for a in sup[1:]:
+            ra, rb = find(sup[0]), find(a)
+            if ra != rb:
+                parent[ra] = rb
+    groups = {}
+    for k in range(len(cut)):
+        groups.setdefault(find(k), []).append(k)
+    comp_points = []
+    total = 1
+    for root, members in groups.items():
+        sub = [cut[k] for k in members]
+        gsz = grid_size(sub)
+        if gsz > MAX_CUT_GRID:
+            return None
+        mine = [c for c, sup in zip(cons, supports) if sup and find(sup[0]) == root]
+        ok = np.ones(tuple(len(n.values) for n in sub), dtype=bool)
+        if mine:
+            try:
+                arrs = evaluate(mine, sub)
+            except (TooBig, KeyError):
+                return None
+            for c, a in zip(mine, arrs):
+                ok = ok & truth_array(c, a)
+        pts = np.argwhere(ok)
+        if len(pts) == 0:
+            return ("valid", {"grid": 0, "note": "constraints unsatisfiable"})
+        comp_points.append((members, pts))
+        total *= len(pts)
+        if total > MAX_CUT_GRID:
+            return None
+    # cartesian product of the groups' feasible points
+    idx = [None] * len(cut)
+    rep = 1
+    for members, pts in comp_points:
+        n = len(pts)
+        tile = total // (rep * n)
+        base = np.tile(np.repeat(np.arange(n), rep), tile)
+        for col, k in enumerate(members):
+            idx[k] = pts[base, col]
+        rep *= n
+    try:
+        (pa,) = evaluate_points([pred], cut, idx)
+    except (TooBig, KeyError, MemoryError):
+        return None
+    if stats is not None:
+        stats["grids"] = stats.get("grids", 0) + 1
+        stats["points"] = stats.get("points", 0) + total
+    bad = ~truth_array(pred, pa)
+    if not bad.any():
+        return ("valid", {"grid": total, "exact_cut": exact, "factored": True, "cut": [c.name for c in cut]})
+    where = np.nonzero(bad)[0]
+    points = [{c: int(idx[k][w]) for k, c in enumerate(cut)} for w in where[:limit]]
+    return ("violations", cut, points, int(bad.sum()), None, exact)
 
 
 def reset():
